@@ -90,8 +90,9 @@ interpolated into rich markup). The model is a model of the repaired tree.
   character scanner, by induction over its loop: `lex_digits` / `tokenize_digits` (a digit string of any length is one number token
   and evaluates to its integer — hence `C01_delay_line`, `C01_default_delay_line`: DELAY / DEFAULT_DELAY lines pass through written
   as the number they denote) and `lex_name` / `C20_readable` (for EVERY set of names in scope, prefixes of one another included, a name
-  in scope is one Variable token and evaluates to its value: the keyword matcher's candidate-set invariant; names starting with T/F,
-  which back-track through the Boolean class, are left to the correspondence).
+  in scope is one Variable token and evaluates to its value: the keyword matcher's candidate-set invariant; `C20_readable_tf` adds the
+  names starting with T/F, which go through the Boolean class, give up where they depart from TRUE/FALSE, and are re-read from their
+  start with that class black-listed — leaving exactly the known finding D14 outside).
 * `Spec.Prog` (the scoped big-step semantics) exists as the Python reference interpreter `harness/refinterp.py` (the
   construction-side oracle), not as a Lean definition; the refinement of the WHOLE interpreter to it is therefore not proved (the
   environment-level refinement `C08_refines_scoped` and the algebraic laws are). The third sentence of C02 (no DucklingScript-only keyword without a warning) is decided by oracle + correspondence only.
